@@ -159,11 +159,15 @@ def judge(case, io_, mo):
             ps.append({'kind': 'oracle', 'sig': 'payload-differs-from-data', 'msg': 'payload differs from the bytes written at offset %d' % k})
         elif any(x != 0x40 for x in p[len(data):]):
             ps.append({'kind': 'oracle', 'sig': 'fill-not-0x40', 'msg': 'bytes after the data are not all 0x40'})
-        elif len(p) - len(data) > B or (case['kind'] == 'oneshot' and len(p) - len(data) >= B):
-            ps.append({'kind': 'oracle', 'sig': 'too-much-fill', 'msg': '%d fill bytes' % (len(p) - len(data))})
+        elif len(p) // B - (len(data) + B - 1) // B > 1:
+            # "at most one block holds fill only" - for the streaming blocker and the one-shot function alike
+            ps.append({'kind': 'oracle', 'sig': 'too-much-fill', 'msg': '%d fill bytes: more than one block holds fill only' % (len(p) - len(data))})
     if case['kind'] == 'stream':
         one = io_.get('one', '')
-        if one != o and not (one.startswith('OK ') and f == (bytes.fromhex(one[3:]) if one[3:] != '-' else b'') + b'\x40' * BLK):
+        fone = (bytes.fromhex(one[3:]) if one[3:] != '-' else b'') if one.startswith('OK ') else None
+        fillblk = b'\x40' * BLK
+        # the same file "apart from that optional trailing all-fill block" - which either of the two may have
+        if one != o and not (fone is not None and (f == fone + fillblk or fone == f + fillblk)):
             ps.append({'kind': 'oracle', 'sig': 'stream-differs-from-oneshot', 'msg': 'streaming output is neither the one-shot output for the same data nor that plus one all-fill block'})
     o2 = io_.get('out2')
     if o2 is not None:
@@ -183,10 +187,12 @@ def judge(case, io_, mo):
             if mo[0][:need] != o[:need] and not ps:
                 ps.append({'kind': 'corr', 'sig': 'blk', 'msg': 'Block1014 output differs from model bwrite/bfinalise in the data-carrying blocks'})
         else:
-            if mo[1] != o:
-                ps.append({'kind': 'oracle', 'sig': 'oneshot-differs-from-documented-layout', 'msg': 'block_1014 output differs from the specified layout'})
-            if mo[0] != o:
-                ps.append({'kind': 'corr', 'sig': 'blk1', 'msg': 'block_1014 output differs from model block_oneshot'})
+            # as for the streaming blocker: compared on the blocks that carry data (what may follow them is judged above)
+            need = 3 + 2 * BLK * ((len(data) + B - 1) // B)
+            if mo[1][:need] != o[:need] and not ps:
+                ps.append({'kind': 'oracle', 'sig': 'oneshot-differs-from-documented-layout', 'msg': 'block_1014 output differs from the specified layout in the data-carrying blocks'})
+            if mo[0][:need] != o[:need] and not ps:
+                ps.append({'kind': 'corr', 'sig': 'blk1', 'msg': 'block_1014 output differs from model block_oneshot in the data-carrying blocks'})
     return ps
 
 
